@@ -245,6 +245,44 @@ static void vf_after_switch(int b)
 	vf_terminated = 0;
 }
 
+/* buffers the user has kept aside: alive, handle known, in no stack slot (left behind by yy_switch_to_buffer) */
+static int vf_saved(int *cand)
+{
+	int b, i, n = 0, on;
+	for (b = 0; b < vf_nB; b++) {
+		if (!vf_B[b].alive || !vf_B[b].handle_valid) continue;
+		for (on = 0, i = 0; i < vf_sp; i++) if (vf_stk[i] == b) on = 1;
+		if (!on) cand[n++] = b;
+	}
+	return n;
+}
+/* may the current buffer be given a FILE by yyrestart(), or by yywrap() setting yyin and returning 0?  File buffers always; with VF_RESTART_MEM also the scanner's own
+ * in-memory buffers (yy_scan_string/bytes), which yylex() itself restarts on yyin when yywrap() returns 0 - not a user array
+ * (yy_scan_buffer), which cannot grow */
+static int vf_can_take_file(int c)
+{
+	if (c < 0) return 1;
+	if (vf_B[c].is_file) return 1;
+#ifdef VF_RESTART_MEM
+	return !vf_B[c].user_mem;
+#else
+	return 0;
+#endif
+}
+/* the manual's older multiple-buffer idiom, at the end of an included source: yy_delete_buffer(YY_CURRENT_BUFFER);
+ * yy_switch_to_buffer(saved) - from yywrap() or from an <<EOF>> action */
+static void vf_delete_and_switch(int b)
+{
+	int c = vf_cur();
+	VF_GUTS
+	vf_log("dS%d ", b, 0);
+	yy_delete_buffer(VF_CUR() VF_S1);
+	if (VF_CUR() != 0) vf_fail("deleted current buffer is still current", 0, 1);
+	vf_B[c].alive = 0; vf_B[c].handle_valid = 0;
+	yy_switch_to_buffer(vf_B[b].h VF_S1);
+	vf_after_switch(b);
+}
+
 /* yywrap: consulted exactly when the current buffer is exhausted */
 #if defined(VF_API_NR)
 int yywrap(void)
@@ -264,8 +302,16 @@ int yywrap(yyscan_t yyscanner)
 	if (c >= 0 && vf_B[c].alive && vf_B[c].R.head < vf_B[c].R.tail) vf_fail("yywrap consulted with input left in the current buffer", c, 0);
 	k = vf_fresh_src();
 	{
-		int canmore = (k >= 0 && c >= 0 && vf_B[c].is_file), canpop = (vf_sp > 1 && c >= 0 && vf_stk[vf_sp - 2] >= 0);
-		ch = vf_choose(1 + (canmore ? 2 : 0) + (canpop ? 1 : 0), VF_K_CALL);
+		int canmore = (k >= 0 && c >= 0 && vf_can_take_file(c)), canpop = (vf_sp > 1 && c >= 0 && vf_stk[vf_sp - 2] >= 0);
+		int cand[VF_NB], nsaved = 0;
+#ifdef VF_SAVED_SWITCH
+		if (vf_sp == 1 && c >= 0) nsaved = vf_saved(cand);
+#endif
+		ch = vf_choose(1 + (canmore ? 2 : 0) + (canpop ? 1 : 0) + (nsaved ? 1 : 0), VF_K_CALL);
+		if (nsaved && ch == 1 + (canmore ? 2 : 0) + (canpop ? 1 : 0)) {
+			vf_delete_and_switch(cand[nsaved > 1 ? vf_choose(nsaved, VF_K_ARG) : 0]);
+			return 0;
+		}
 		if (canpop && ch == 1 + (canmore ? 2 : 0)) {
 			/* end of an included buffer handled in yywrap: pop back to the including buffer and go on scanning */
 			vf_log("wP ", 0, 0);
@@ -292,7 +338,7 @@ int yywrap(yyscan_t yyscanner)
 		yyset_in(VF_FAKE(k), yyscanner);
 #endif
 		vf_src_used[k] = 1;
-		vf_B[c].src = k; vf_B[c].srcpos = 0; vf_B[c].eof_told = 0;
+		vf_B[c].src = k; vf_B[c].srcpos = 0; vf_B[c].eof_told = 0; vf_B[c].is_file = 1;
 		vf_ref_init(&vf_B[c].R, vf_srcs[k].d, vf_srcs[k].n, 0);
 		vf_yyin_src = k; vf_yyin_fresh = 0;
 		return 0;
@@ -315,16 +361,25 @@ int yywrap(yyscan_t yyscanner)
 	return 0;
 }
 
+static int vf_eof_saved;
 /* the <<EOF>> action body asks what to do: 0 terminate, 1 pop (terminate if nothing is left), 2 new yyin, 3 return 2 */
 static int vf_eof_choice(void)
 {
 	int k = vf_fresh_src(), n = 4, ch;
+#ifdef VF_SAVED_SWITCH
+	int cand[VF_NB], nsaved = (vf_sp == 1 && vf_cur() >= 0) ? vf_saved(cand) : 0;
+	if (nsaved) n = 5;
+#endif
 	ch = vf_choose(n, VF_K_CALL);
 	if (ch == 2 && (k < 0 || vf_cur() < 0 || !vf_B[vf_cur()].is_file)) ch = 0;
 	if (ch == 1 && vf_sp == 0) ch = 0;
 	vf_log("e%d ", ch, 0);
+#ifdef VF_SAVED_SWITCH
+	if (ch == 4) vf_eof_saved = cand[nsaved > 1 ? vf_choose(nsaved, VF_K_ARG) : 0];
+#endif
 	return ch;
 }
+static void vf_eof_switch_saved(void) { vf_delete_and_switch(vf_eof_saved); }
 static void vf_eof_did_pop(int has_current)
 {
 	int c = vf_cur();
@@ -337,7 +392,7 @@ static int vf_eof_new_yyin(void)
 {
 	int k = vf_fresh_src(), c = vf_cur();
 	vf_src_used[k] = 1;
-	vf_B[c].src = k; vf_B[c].srcpos = 0; vf_B[c].eof_told = 0;
+	vf_B[c].src = k; vf_B[c].srcpos = 0; vf_B[c].eof_told = 0; vf_B[c].is_file = 1;
 	vf_ref_init(&vf_B[c].R, vf_srcs[k].d, vf_srcs[k].n, 0);
 	vf_yyin_src = k; vf_yyin_fresh = 0;
 	return k;
@@ -409,7 +464,8 @@ static int vf_between_calls(void)
 		if ((i == OP_CRPUSH) && vf_sp >= VF_MAXSTK - 2) continue;
 		if (i == OP_POP && (vf_sp == 0 || c < 0)) continue;     /* popping after the current buffer was deleted by hand: not described */
 		if (i == OP_NEWYYIN && !(vf_terminated || c < 0)) continue;   /* a new yyin is picked up at end of input or when no buffer exists */
-		if ((i == OP_RESTART || i == OP_NEWYYIN) && c >= 0 && !vf_B[c].is_file) continue;  /* giving an in-memory buffer a FILE: not described by the manual */
+		if (i == OP_RESTART && !vf_can_take_file(c)) continue;  /* giving a user array (yy_scan_buffer) a FILE: not described by the manual */
+		if (i == OP_NEWYYIN && c >= 0 && !vf_B[c].is_file) continue;  /* only a buffer that reads yyin looks at yyin again after its end */
 		if ((i == OP_SCANBYTES || i == OP_SCANSTRING || i == OP_SCANBUF || i == OP_SCANBAD) && (vf_nB >= VF_NB - 2 || vf_userbuf_n >= 4)) continue;
 		if ((i == OP_CRSWITCH || i == OP_CRPUSH) && vf_nB >= VF_NB - 2) continue;
 		if (i == OP_SWITCH || i == OP_FLUSH || i == OP_DELETE) {
